@@ -3,3 +3,6 @@
 // and registers them with:   static RegisterCmd reg_xyz("XYZ", cmd_xyz);
 // Helpers available from harness.cpp: hex(valtype), unhex(str, valtype&), split(str, ch), join_items, in_child(lambda), fnv1a.
 #include "cmd_spend.inc"
+#include "cmd_sighash.inc"
+#include "cmd_listing.inc"
+#include "cmd_tf.inc"
